@@ -92,4 +92,28 @@ CLAIMS = {
                 "iteration with the loop-carried state (result, rest) "
                 "observed at its end.",
     },
+    "C07": {
+        "level": "other",
+        "technique": "interprocedural exception-escape analysis over the "
+                     "resolved call graph (receiver-class sensitive, SAX "
+                     "callback edges, handler subsumption by class hierarchy) "
+                     "+ value-origin tuple-shape rule + cycle-guard rule + "
+                     "guard-dominance rules on a CFG",
+        "text": "Decides which exception classes can propagate out of "
+                "loadConfig, loadConfigFile, ConfigLoader/"
+                "ExtendedConfigLoader.loadURL/loadFile and addOption along "
+                "every resolved call path, for explicit raises, re-raises and "
+                "the documented exceptions of external callees (must be "
+                "within the ConfigurationError family or a datatype's own "
+                "error); that every position tuple reaching a position sink "
+                "has the order the sink unpacks; that the %include recursion "
+                "cycle has a membership guard; that integer subscripts and "
+                "fixed-arity unpackings of text-derived sequences are "
+                "guarded; the exit-status structure of validator.main.  Does "
+                "not decide arbitrary implicit Python errors.",
+        "note": _TB + "  External callees raise only what DESIGN appendix A6 "
+                "attributes to them; exceptions reachable only through the "
+                "schema/component SAX parser are attributed to schema "
+                "documents (C10) and listed, not reported.",
+    },
 }
